@@ -1,199 +1,43 @@
 """C01 - linear count-min: true <= estimate <= collision bound on every history.
 
-E1 (explicit-state BFS over real CountMinLinear objects) with reference model
-M2 (vf/models/cm.py).  Alphabet chosen by probing for a non-trivial collision
-structure; events add / add_ngram / merge / save+load on 2..4 sketches.
+E1 (explicit-state BFS over real CountMinLinear objects, vf/checks/cm_common.py)
+with reference model M2 (vf/models/cm.py).  Alphabet chosen by probing for a
+non-trivial collision structure; events add / add_ngram / merge / save+load on
+2..4 sketches; multiplicities adjacent to and beyond 2^32-1.
 """
-import os
 import shutil
 
-from .. import sk as SK
-from ..bfs import E1, merge_stats
-from ..common import U32, tmpdir, MachineryError
-from ..models import cm as M2
+from ..bfs import merge_stats
+from ..common import tmpdir, MachineryError
+from . import cm_common as C
 
 PROP = "C01"
 LEVEL = "model_checking"
-
-NEVER = (b"never-added-1", b"\x00never")
-
-
-def windows(x, n):
-    if len(x) <= n:
-        return [x]
-    return [x[i : i + n] for i in range(len(x) - n + 1)]
-
-
-class CMSys(E1):
-    """S count-min sketches of one shape; model[s] = sorted (key, true count)."""
-
-    name = "cm"
-    kind = "linear"
-
-    def __init__(self, scratch_dir):
-        self.dir = scratch_dir
-        self._probe = None
-
-    # cfg: {"kind","args":[w,d,...],"S",,"keys":[..],"mults":[..],"ngrams":[[x,n]..],
-    #       "saveload":bool}
-    def factory(self):
-        c = self.cfg
-        return SK.make(c["kind"], *c["args"])
-
-    def init(self, cfg):
-        self.cfg = cfg
-        self.depth = int(cfg["args"][1])
-        self.width = int(cfg["args"][0])
-        self._probe = M2.Probe(self.factory)
-        work = [self.factory() for _ in range(cfg["S"])]
-        model = tuple(() for _ in range(cfg["S"]))
-        self.alpha = [bytes(k) for k in cfg["keys"]]
-        return work, model
-
-    def cols(self, key):
-        return self._probe.cols(key)
-
-    def events(self, model, depth):
-        c = self.cfg
-        S = c["S"]
-        for s in range(S):
-            for k in self.alpha:
-                for v in c["mults"]:
-                    yield ("add", s, k, v)
-        for s in range(S):
-            for x, n in c.get("ngrams", ()):
-                yield ("ngram", s, bytes(x), n)
-        for s in range(S):
-            for t in range(S):
-                if s != t:
-                    yield ("merge", s, t)
-        if c.get("saveload", True):
-            for s in range(S):
-                yield ("saveload", s)
-
-    def apply(self, work, model, ev):
-        m = [dict(x) for x in model]
-        op = ev[0]
-        if op == "add":
-            _, s, k, v = ev
-            work[s].add(k, v)
-            m[s][k] = m[s].get(k, 0) + v
-        elif op == "ngram":
-            _, s, x, n = ev
-            work[s].add_ngram(x, n)
-            for w in windows(x, n):
-                m[s][w] = m[s].get(w, 0) + 1
-        elif op == "merge":
-            _, s, t = ev
-            work[s].merge(work[t])
-            for k, v in m[t].items():
-                m[s][k] = m[s].get(k, 0) + v
-        elif op == "saveload":
-            _, s = ev
-            path = os.path.join(self.dir, "sl.npz")
-            work[s].save(path)
-            work[s] = type(work[s]).load(path)
-        else:
-            raise MachineryError(f"unknown event {ev}")
-        return tuple(tuple(sorted(x.items())) for x in m), []
-
-    def touched(self, ev):
-        return (ev[1], ev[2]) if ev[0] == "merge" else (ev[1],)
-
-    def universe(self, model):
-        u = set(self.alpha) | set(NEVER)
-        for x in model:
-            for k, _ in x:
-                u.add(k)
-        return sorted(u)
-
-    def oracle(self, work, model):
-        probs = []
-        uni = self.universe(model)
-        cols = {k: self.cols(k) for k in uni}
-        for s, sk in self.active(work):
-            true = dict(model[s])
-            # per (row, col) sums of true counts
-            cell = {}
-            for k, v in true.items():
-                if v:
-                    ck = cols[k]
-                    for r in range(self.depth):
-                        cell[(r, ck[r])] = cell.get((r, ck[r]), 0) + v
-            for k in uni:
-                q = int(sk.query(k))
-                q2 = int(sk[k])
-                lo = min(true.get(k, 0), U32)
-                ck = cols[k]
-                hi = min(min(cell.get((r, ck[r]), 0) for r in range(self.depth)), U32)
-                if q != q2:
-                    probs.append(f"sketch {s}: query({k!r})={q} but sketch[key]={q2}")
-                if q < lo:
-                    probs.append(
-                        f"sketch {s}: estimate {q} of {k!r} is below min(true, 2^32-1) = {lo}"
-                    )
-                if q > hi:
-                    probs.append(
-                        f"sketch {s}: estimate {q} of {k!r} exceeds the collision bound {hi} "
-                        f"(true {true.get(k, 0)})"
-                    )
-        return probs
-
-    def nontrivial(self, work, model):
-        # some sketch holds two keys with positive counts that share a counter
-        for x in model:
-            ks = [k for k, v in x if v]
-            for i in range(len(ks)):
-                for j in range(i + 1, len(ks)):
-                    a, b = self.cols(ks[i]), self.cols(ks[j])
-                    if any(a[r] == b[r] for r in range(self.depth)):
-                        return True
-        return False
-
-    def outcome(self, work, model):
-        return tuple(w.cms.tobytes() for w in work)
+MODES = ("bounds",)
 
 
 def configs(tier, seed):
     big = [1, 2**32 - 2, 2**40]
     ng = [[b"\x00\x00\x00", 1], [b"\xff\x80\x7f", 2]]
-    shapes = [(1, 1), (2, 2), (3, 2), (2, 3)]
     out = []
-    D = 4 if tier == "quick" else 5
-    for w, d in shapes:
-        out.append(dict(kind="linear", args=[w, d], S=2, mults=big, ngrams=ng, depth=D))
-    if tier == "thorough":
-        for w, d in [(1, 3), (3, 3), (4, 2), (1, 8), (2, 8)]:
+    if tier == "quick":
+        for w, d in [(1, 1), (2, 2), (3, 2), (2, 3)]:
+            out.append(dict(kind="linear", args=[w, d], S=2, mults=big, ngrams=ng, depth=4))
+        out.append(dict(kind="linear", args=[2, 2], S=3, mults=[1, 2**32 - 2], ngrams=[], depth=3))
+        out.append(dict(kind="linear", args=[2, 2], S=4, mults=[2**32 - 2], ngrams=[], depth=3,
+                        saveload=False))
+    else:
+        for w, d in [(1, 1), (2, 2), (3, 2), (2, 3), (1, 3), (3, 3), (4, 2), (1, 8), (2, 8)]:
             out.append(dict(kind="linear", args=[w, d], S=2, mults=big, ngrams=ng, depth=5))
         full = [0, 1, 3, 2**32 - 2, 2**32 - 1, 2**32, 2**40]
         for w, d in [(2, 2), (3, 2)]:
             out.append(dict(kind="linear", args=[w, d], S=2, mults=full, ngrams=ng, depth=4))
             out.append(dict(kind="linear", args=[w, d], S=3, mults=big, ngrams=ng[:1], depth=4))
-        # merge trees over 4 sketches, one multiplicity
         out.append(dict(kind="linear", args=[2, 2], S=4, mults=[1], ngrams=[], depth=5,
                         saveload=False))
         out.append(dict(kind="linear", args=[2, 2], S=4, mults=[2**32 - 2], ngrams=[], depth=4,
                         saveload=False))
-    else:
-        out.append(dict(kind="linear", args=[2, 2], S=3, mults=[1, 2**32 - 2], ngrams=[], depth=3))
     return out
-
-
-def with_alphabet(cfg, seed):
-    """Choose the 3-key alphabet for this shape by probing the real sketch."""
-    w, d = cfg["args"][0], cfg["args"][1]
-    probe = M2.Probe(lambda: SK.make(cfg["kind"], *cfg["args"]))
-    keys = M2.choose_alphabet(probe, w, d, M2.pool(seed))
-    cfg = dict(cfg)
-    cfg["keys"] = keys
-    return cfg
-
-
-def run_one(cfg, rep, scratch, cls=CMSys, time_cap=None):
-    sysm = cls(scratch)
-    depth = cfg["depth"]
-    st = sysm.explore(cfg, depth, rep, time_cap=time_cap)
-    return st
 
 
 def pool_size(tier):
@@ -202,49 +46,52 @@ def pool_size(tier):
 
 def task(arg):
     """One configuration = one independent BFS (runs in a pool worker)."""
-    cfg, seed, tier = arg
+    cfg, seed, tier, modes = arg
     from ..pool import SubReporter
-    from ..common import StopExploration
 
     sub = SubReporter(seed, tier)
     scratch = tmpdir()
-    st = None
     try:
-        cfg = with_alphabet(cfg, seed)
-        st = run_one(cfg, sub, scratch, time_cap=900 if tier == "thorough" else 150)
+        cfg = C.with_alphabet(cfg, seed)
+        st = C.CMSys(scratch, modes).explore(
+            cfg, cfg["depth"], sub, time_cap=1500 if tier == "thorough" else 150
+        )
     finally:
         shutil.rmtree(scratch, ignore_errors=True)
     return cfg, st, sub.violations
 
 
-def run(rep):
+def run_modes(rep, modes, cfgs, floor=50):
     from ..pool import run_tasks
 
-    cfgs = configs(rep.tier, rep.seed)
-    res = run_tasks(__name__, "task", [(c, rep.seed, rep.tier) for c in cfgs])
+    res = run_tasks(__name__, "task", [(c, rep.seed, rep.tier, tuple(modes)) for c in cfgs])
     for cfg, st, viol in res:
         for case, msg in viol:
+            case["modes"] = list(modes)
             rep.violations.append((case, msg))
-        merge_stats(rep, f"linear-{cfg['args']}-S{cfg['S']}-m{len(cfg['mults'])}", cfg, st)
-        print(f"  {cfg['args']} S={cfg['S']} D={st['depth']} states={st['states']} "
-              f"trans={st['transitions']} nontrivial={st['nontrivial']} {st['wall_s']}s",
-              flush=True)
+        merge_stats(rep, C.label(cfg), cfg, st)
+        print(f"  {C.label(cfg)}: D={st['depth']} states={st['states']} trans={st['transitions']} "
+              f"nontrivial={st['nontrivial']} {st['wall_s']}s", flush=True)
     rep.set("closed", False)
+    if not rep.violations and rep.cov.get("_nt_extra", 0) < floor:
+        raise MachineryError("count-min exploration is vacuous: almost no colliding states")
+    rep.assume("keys outside the probed alphabet behave like alphabet keys with the same "
+               "collision pattern (kernels touch a key only through its hash columns)")
+
+
+def run(rep):
+    run_modes(rep, MODES, configs(rep.tier, rep.seed))
     rep.set(
         "rule",
         "state = full concrete state of every real sketch + true counts per key; BFS over "
         "add/add_ngram/merge/save+load events to the stated depth per configuration; "
         "non-trivial state = some sketch holds two keys with positive counts sharing a counter",
     )
-    if not rep.violations and rep.cov.get("_nt_extra", 0) < 50:
-        raise MachineryError("C01 exploration is vacuous: almost no colliding states")
-    rep.assume("keys outside the probed alphabet behave like alphabet keys with the same "
-               "collision pattern (kernels touch a key only through its hash columns)")
 
 
 def replay(case):
     scratch = tmpdir()
     try:
-        return CMSys(scratch).replay(case["cfg"], case["events"])
+        return C.CMSys(scratch, case.get("modes", MODES)).replay(case["cfg"], case["events"])
     finally:
         shutil.rmtree(scratch, ignore_errors=True)
